@@ -166,11 +166,29 @@ def generate(seed, tier, index):
     if late:
         pre = gen_steps(rng, specs, nclients, rng.randint(0, 5), client_ops=False)
         steps += pre
+    unveil = None
+    if rng.random() < 0.2:
+        # every BLOB property of one device is hidden when the clients connect; one of them gets its payload while hidden
+        # and is shown later, at rest: the clients have known the device all along and must end up with the payload
+        vecs_all, els_all, _ = _targets(specs)
+        dn = rng.choice(specs)["name"]
+        bl = [v for d, v in vecs_all if d == dn and v["kind"] == "BLOB"]
+        if bl:
+            for v in bl:
+                steps.append({"op": "d_venable", "dev": dn, "vec": v["name"], "value": False})
+            v0 = rng.choice(bl)
+            e0 = rng.choice(list(v0["elements"].values()))
+            unveil = [{"op": "d_assign", "dev": dn, "vec": v0["name"], "el": e0["name"], "value": V.driver_value(rng, "BLOB", e0)},
+                      {"op": "settle"}, {"op": "d_venable", "dev": dn, "vec": v0["name"], "value": True}, {"op": "settle"}]
     for c in range(nclients):
         steps.append({"op": "start_client", "c": c})
     for s in snoop:
         steps.append(dict(op="snoop", **s))
-    steps += gen_steps(rng, specs, nclients, n)
+    body = gen_steps(rng, specs, nclients, n)
+    if unveil:
+        k = rng.randint(0, len(body))
+        body = body[:k] + [{"op": "settle"}] + unveil + body[k:]
+    steps += body
     net = {"latency": rng.choice(["zero", "lan", "lan", "slow", "bursty", "skew", "skew"]),
            "frag": rng.choice(["whole", "fixed:1", "fixed:7", "fixed:64", "fixed:1024", "random", "random", "coalesce"]),
            "hwm": rng.choice([0, 1, 64, 65536, 65536])}
@@ -236,13 +254,25 @@ def _published_before_only(stack, devname, vname):
     for the device reached the router (the INDI enableBLOB race: nobody could receive that update)."""
     last_set = None
     last_only = None
+    first_def = None
+    asked = False
     for i, (origin, sname, v) in enumerate(stack.router_log):
         a = dict(v[1])
+        if origin == "client" and v[0] == "getProperties":
+            asked = True
+        if asked and first_def is None and origin == "driver" and v[0].startswith("def") and a.get("device") == devname:
+            first_def = i  # from here on the clients know the device and ask for its BLOBs at once
         if v[0] == "setBLOBVector" and a.get("device") == devname and a.get("name") == vname:
             last_set = i
         if v[0] == "enableBLOB" and a.get("device") == devname and v[2] == "Only":
             last_only = i
-    return last_set is not None and last_only is not None and last_set < last_only
+    if not (last_set is not None and last_only is not None and last_set < last_only):
+        return False
+    # the race needs the request to be in flight: if everything in flight was delivered (a point of quiescence) after the
+    # clients had learnt of the device and before the update was published, a client that asks when it should had asked
+    if first_def is not None and any(first_def < q <= last_set for q in getattr(stack, "quiescent_marks", [])):
+        return False
+    return True
 
 
 def _last_def_answers_getproperties(stack, devname, vname):
